@@ -508,9 +508,9 @@ func (c *checker) special(d *docCase) {
 	if strings.Contains(T, "\n") {
 		if ts, err := textModeSig(d.key, T, d.sigTime); err == nil {
 			crlf := strings.ReplaceAll(T, "\n", "\r\n")
-			add("payload", crlf+sep+ts+tail)
+			add("text-mode-sig", "payload", crlf+sep+ts+tail)
 			i := strings.Index(T, "\n")
-			add("payload", T[:i]+"\r"+T[i:]+sep+ts+tail)
+			add("text-mode-sig", "payload", T[:i]+"\r"+T[i:]+sep+ts+tail)
 		} else {
 			r.Inconclusive("cannot build a text-mode signature: " + err.Error())
 		}
